@@ -8,19 +8,10 @@ from sa.calls import Resolver
 from sa.core import AnalysisError, Repo, Report, call_name, kwarg, parent, unparse, walk_no_nested
 from sa.selftest import Edit, Variant
 
-EXPLANATION = (
-    "(copy sites) every deepcopy of an element that is inserted into the same tree - the <use> instance and inherited gradient stops - has "
-    "ids stripped from the copied root and all its descendants before it is attached; whole-tree copies are exempt; (split) when _stroke "
-    "returns two pieces both ids are cleared; (allocation) every id the package writes comes from the source or from _new_id, which searches "
-    "the whole current tree for the lowest free index, and each allocated element is attached before the next allocation: inside "
-    "_transformed_gradient by statement order, and for nested svgs because _swap_elements consumes its argument lazily, one swap at a time, "
-    "from generator expressions; (dangling) gradients are deleted only by _remove_orphaned_gradients, whose used-id scan ranges over all "
-    "shapes with only the two documented skips, and by the non-gradient purge of defs; rewritten fills point at the element just added to "
-    "defs; (orphans) no shape-deleting stage after the last orphan removal (fails today: known finding F5); (backstop) the gate reports "
-    "duplicate ids."
-)
-ASSUMPTIONS = ["every reference in the source resolves (premise of the property)",
-               "duplicate generated ids for doubly nested svg and unstripped stop ids in _transformed_gradient end in an exception at the gate / xpath_one (observations, not violations)"]
+from sa.texts import T as _T
+
+EXPLANATION = _T["C08"]["explanation"] + " Not decided: " + _T["C08"]["not_decided"] + "."
+ASSUMPTIONS = _T["C08"]["assumptions"]
 P = "C08"
 
 
